@@ -737,42 +737,73 @@ impl Supervisor {
     }
 
     /// Evaluate `[start, end)`, isolating, confirming and stepping over faults.
+    ///
+    /// `risky(idx)` is a *performance hint only*: a case for which it returns true
+    /// is evaluated in a child of its own, so that its expected death does not
+    /// take the results of its neighbours with it.
     pub fn supervise(
         &self,
         set: usize,
         start: u64,
         end: u64,
         case_timeout: Duration,
+        risky: &dyn Fn(u64) -> bool,
         body: &mut dyn FnMut(u64, u64, &Progress) -> Json,
         merge: &mut dyn FnMut(Json),
         faults: &mut Vec<Fault>,
         stats: &mut SupStats,
     ) {
-        let mut stack = vec![(start, end)];
-        while let Some((a, b)) = stack.pop() {
-            if a >= b {
-                continue;
+        // split into runs of ordinary cases and single risky cases
+        let mut segs: Vec<(u64, u64, bool)> = Vec::new();
+        let mut run_start = start;
+        for i in start..end {
+            if risky(i) {
+                if run_start < i {
+                    segs.push((run_start, i, false));
+                }
+                segs.push((i, i + 1, true));
+                run_start = i + 1;
             }
-            stats.forks += 1;
-            match self.fork_run(set, a, b, case_timeout, body) {
-                ForkOutcome::Answer(j) => merge(j),
-                ForkOutcome::Fault(f) => {
-                    if f.idx < a || f.idx >= b {
-                        vp_core::machinery_error("fork supervisor: progress index outside range");
-                    }
-                    stats.forks += 1;
-                    match self.fork_run(set, f.idx, f.idx + 1, case_timeout, body) {
-                        ForkOutcome::Answer(j) => {
-                            match f.kind {
-                                FaultKind::Timeout => stats.unconfirmed_timeouts += 1,
-                                FaultKind::Died(_) => stats.unconfirmed_deaths += 1,
-                            }
-                            merge(j);
+        }
+        if run_start < end {
+            segs.push((run_start, end, false));
+        }
+        for (sa, sb, _single) in segs {
+            let mut stack = vec![(sa, sb)];
+            while let Some((a, b)) = stack.pop() {
+                if a >= b {
+                    continue;
+                }
+                stats.forks += 1;
+                match self.fork_run(set, a, b, case_timeout, body) {
+                    ForkOutcome::Answer(j) => merge(j),
+                    ForkOutcome::Fault(f) => {
+                        if f.idx < a || f.idx >= b {
+                            vp_core::machinery_error("fork supervisor: progress index outside range");
                         }
-                        ForkOutcome::Fault(f2) => faults.push(f2),
+                        // The runtime's own abort messages name a deterministic cause;
+                        // everything else is re-run alone before it is believed.
+                        let self_explaining = matches!(f.kind, FaultKind::Died(_))
+                            && (f.stderr.contains("memory allocation of") || f.stderr.contains("has overflowed its stack"));
+                        let (idx, fa, fb) = (f.idx, a, b);
+                        if self_explaining {
+                            faults.push(f);
+                        } else {
+                            stats.forks += 1;
+                            match self.fork_run(set, idx, idx + 1, case_timeout, body) {
+                                ForkOutcome::Answer(j) => {
+                                    match f.kind {
+                                        FaultKind::Timeout => stats.unconfirmed_timeouts += 1,
+                                        FaultKind::Died(_) => stats.unconfirmed_deaths += 1,
+                                    }
+                                    merge(j);
+                                }
+                                ForkOutcome::Fault(f2) => faults.push(f2),
+                            }
+                        }
+                        stack.push((idx + 1, fb));
+                        stack.push((fa, idx));
                     }
-                    stack.push((f.idx + 1, b));
-                    stack.push((a, f.idx));
                 }
             }
         }
@@ -1008,12 +1039,13 @@ pub fn supervised_answer(
     start: u64,
     end: u64,
     case_timeout: Duration,
+    risky: &dyn Fn(u64) -> bool,
     body: &mut dyn FnMut(u64, u64, &Progress) -> Json,
 ) -> Json {
     let mut total = Acc::default();
     let mut faults = Vec::new();
     let mut st = SupStats::default();
-    sup.supervise(set, start, end, case_timeout, body, &mut |j| total.merge_json(&j), &mut faults, &mut st);
+    sup.supervise(set, start, end, case_timeout, risky, body, &mut |j| total.merge_json(&j), &mut faults, &mut st);
     let mut j = total.to_json();
     let o = j.as_object_mut().unwrap();
     o.insert("faults".into(), Json::Array(faults.iter().map(fault_to_json).collect()));
